@@ -46,6 +46,7 @@ class CorrSim:
         self.events = []
         self.nested_sweep = False
         self.nested_op = None
+        self.gate = None
         self._in_nested = False
 
         class Hook(AbstractHook):
@@ -57,6 +58,9 @@ class CorrSim:
 
             async def send_error(self, m, err, cid):
                 sim.events.append(' E=' + sim.show(m))
+                if sim.gate is not None:
+                    # the scheduler of the harness decides when this hook call returns (tools/corr/c14.py sched_history)
+                    await sim.gate(m)
                 if (sim.nested_sweep or sim.nested_op) and not sim._in_nested:
                     # another task's correlator operation running while this hook call is
                     # suspended (its sweep, or the receiver handling a response), cf. DESIGN tier 3
